@@ -318,7 +318,7 @@ def run(ctx):
             "comment:none" if c is None else "comment:blank"
             if not c.strip() else "comment:text"])
 
-    ctx.hyp("c20-rt", S.tapes(2500).map(gen_rt), check_rt,
+    ctx.hyp("c20-rt", S.mapped(2500, gen_rt), check_rt,
             ctx.scale(6000, 200000), shrinker=shrink)
 
     def check_cn(case):
@@ -328,5 +328,5 @@ def run(ctx):
         ctx.note(case, bool(near), ["part:connectivity",
                                     f"n:{len(case['elements'])}"])
 
-    ctx.hyp("c20-conn", S.tapes(1500).map(gen_conn), check_cn,
+    ctx.hyp("c20-conn", S.mapped(1500, gen_conn), check_cn,
             ctx.scale(5000, 200000), shrinker=shrink)
